@@ -435,7 +435,46 @@ func (h *heap) addDeep(f tengo.Object, origin string, isRoot bool, preMut, preAl
 	return r
 }
 
-func (h *heap) sigBase() string { return "root=" + h.kind + "/lit=" + h.lit }
+// mark / restore: rebind the variables to the objects they held at mark time
+// and forget the records created since (used by expandNode, which then checks
+// by canonical form whether the instance is back in the marked state).
+type heapMark struct {
+	vars  [4]tengo.Object
+	chain [4][]string
+	nrecs int
+}
+
+func (h *heap) mark() heapMark { return heapMark{h.vars, h.chain, len(h.recs)} }
+
+func (h *heap) restore(m heapMark) {
+	h.vars = m.vars
+	h.chain = m.chain
+	for _, r := range h.recs[m.nrecs:] {
+		if r.deep {
+			delete(h.deep, r.obj)
+		} else {
+			delete(h.shallow, r.obj)
+		}
+	}
+	h.recs = h.recs[:m.nrecs]
+}
+
+func (h *heap) sigBase() string { return "root=" + h.kind + "/lit=" + litClass(h.lit) }
+
+// litClass folds the literals into the classes named in signatures.
+func litClass(lit string) string {
+	switch lit {
+	case "flat":
+		return "array-flat"
+	case "nested", "shared", "arr-map-arr":
+		return "array-nested"
+	case "err-arr":
+		return "array-of-error"
+	case "map":
+		return "map"
+	}
+	return lit
+}
 
 func (h *heap) initOracle() {
 	h.ids = map[tengo.Object]int{}
@@ -554,13 +593,6 @@ type stepOut struct {
 	unprotChanged  int
 }
 
-func last2(s []string) []string {
-	if len(s) > 2 {
-		return append([]string{}, s[len(s)-2:]...)
-	}
-	return s
-}
-
 func erased(s string) string {
 	s = strings.ReplaceAll(s, "imarray[", "array[")
 	return strings.ReplaceAll(s, "immap{", "map{")
@@ -594,7 +626,16 @@ func (h *heap) step(op *opDef, check bool) (out stepOut) {
 		if h.vars[d] != old[d] {
 			rebound = true
 			if d == op.Dest {
-				h.chain[d] = last2(append(append([]string{}, baseRoute...), strings.TrimSuffix(op.Class, "-indexset")))
+				// the route of a variable = the class of the operation that
+				// created its value (a plain alias inherits the route of its source)
+				switch {
+				case op.Class == "alias-indexset" && len(baseRoute) > 0:
+					h.chain[d] = baseRoute
+				case op.Class == "alias-indexset":
+					h.chain[d] = []string{"alias"}
+				default:
+					h.chain[d] = []string{op.Route}
+				}
 			} else {
 				h.chain[d] = []string{"unexpected-rebinding"}
 			}
@@ -614,9 +655,12 @@ func (h *heap) step(op *opDef, check bool) (out stepOut) {
 	_ = frozen
 
 	// invariant: every protected record equals its creation snapshot
-	via := "direct-" + op.Class
+	via := "direct-" + op.Route
+	if op.Class == "alias-indexset" {
+		via = "alias-then-indexset"
+	}
 	if len(baseRoute) > 0 {
-		via = strings.Join(baseRoute, "+") + "-then-" + op.Class
+		via = strings.Join(baseRoute, "+") + "-then-" + op.Route
 	}
 	failed := res.class != "ok"
 	rootFired := false
@@ -644,8 +688,13 @@ func (h *heap) step(op *opDef, check bool) (out stepOut) {
 		what := "root-changed"
 		whose := "the protected root"
 		if !r.isRoot {
+			// derived immutable value: name how it was made and the writing
+			// operation (the route of the written-through variable is in the text)
 			what = "derived-" + r.origin + "-changed"
-			whose = "an immutable value created by '" + r.origin + "' during the path"
+			whose = "an immutable value created by '" + r.origin + "' during the path (write route: " + via + ")"
+			if v == via {
+				v = r.origin + "-result-then-" + op.Route
+			}
 		}
 		if failed {
 			what = "failed-op-changed-" + strings.TrimSuffix(strings.TrimPrefix(what, "derived-"), "-changed")
